@@ -1,0 +1,108 @@
+//! Verification seam (compiled only with `--cfg metrics_verif`): `crossbeam_channel` endpoints
+//! whose operations are scheduling points of the simulator (announced before and after, like the
+//! shimmed atomics). Anything not wrapped here falls through to the real endpoint via `Deref`.
+#![allow(missing_docs)]
+use crossbeam_channel::{TryRecvError, TrySendError};
+use metrics::__verif::sync_point;
+
+pub struct Sender<T>(crossbeam_channel::Sender<T>);
+pub struct Receiver<T>(crossbeam_channel::Receiver<T>);
+
+impl<T> std::fmt::Debug for Sender<T> {
+    fn fmt(&self, f: &mut std::fmt::Formatter<'_>) -> std::fmt::Result {
+        self.0.fmt(f)
+    }
+}
+impl<T> std::fmt::Debug for Receiver<T> {
+    fn fmt(&self, f: &mut std::fmt::Formatter<'_>) -> std::fmt::Result {
+        self.0.fmt(f)
+    }
+}
+
+pub fn bounded<T>(cap: usize) -> (Sender<T>, Receiver<T>) {
+    let (tx, rx) = crossbeam_channel::bounded(cap);
+    (Sender(tx), Receiver(rx))
+}
+pub fn unbounded<T>() -> (Sender<T>, Receiver<T>) {
+    let (tx, rx) = crossbeam_channel::unbounded();
+    (Sender(tx), Receiver(rx))
+}
+
+impl<T> Clone for Sender<T> {
+    fn clone(&self) -> Self {
+        Sender(self.0.clone())
+    }
+}
+impl<T> Clone for Receiver<T> {
+    fn clone(&self) -> Self {
+        Receiver(self.0.clone())
+    }
+}
+
+impl<T> std::ops::Deref for Sender<T> {
+    type Target = crossbeam_channel::Sender<T>;
+    fn deref(&self) -> &Self::Target {
+        &self.0
+    }
+}
+impl<T> std::ops::Deref for Receiver<T> {
+    type Target = crossbeam_channel::Receiver<T>;
+    fn deref(&self) -> &Self::Target {
+        &self.0
+    }
+}
+
+impl<T> Sender<T> {
+    #[track_caller]
+    pub fn try_send(&self, msg: T) -> Result<(), TrySendError<T>> {
+        sync_point("chan.try_send");
+        let r = self.0.try_send(msg);
+        sync_point("chan.try_send.done");
+        r
+    }
+    #[track_caller]
+    pub fn len(&self) -> usize {
+        sync_point("chan.tx.len");
+        let r = self.0.len();
+        sync_point("chan.tx.len.done");
+        r
+    }
+    #[track_caller]
+    pub fn is_empty(&self) -> bool {
+        sync_point("chan.tx.is_empty");
+        let r = self.0.is_empty();
+        sync_point("chan.tx.is_empty.done");
+        r
+    }
+    #[track_caller]
+    pub fn is_full(&self) -> bool {
+        sync_point("chan.tx.is_full");
+        let r = self.0.is_full();
+        sync_point("chan.tx.is_full.done");
+        r
+    }
+}
+
+impl<T> Receiver<T> {
+    #[track_caller]
+    pub fn try_recv(&self) -> Result<T, TryRecvError> {
+        sync_point("chan.try_recv");
+        let r = self.0.try_recv();
+        sync_point("chan.try_recv.done");
+        r
+    }
+    #[track_caller]
+    pub fn len(&self) -> usize {
+        sync_point("chan.rx.len");
+        let r = self.0.len();
+        sync_point("chan.rx.len.done");
+        r
+    }
+    #[track_caller]
+    pub fn is_empty(&self) -> bool {
+        sync_point("chan.rx.is_empty");
+        let r = self.0.is_empty();
+        sync_point("chan.rx.is_empty.done");
+        r
+    }
+}
